@@ -352,6 +352,16 @@ func (o *Op) lines0() []string {
 		return getUniverse().keyLines()
 	case "facts", "forge", "transplant":
 		return o.Raw
+	case "vhold":
+		return []string{"vhold " + o.V.String()}
+	case "vheld":
+		return []string{"vheld mode=" + []string{"verify", "any", "all"}[o.N]}
+	case "poke":
+		ls := []string{fmt.Sprintf("poke nsites=%d", len(o.Sites))}
+		for _, p := range o.Sites {
+			ls = append(ls, fmt.Sprintf("ps off=%d hex=%s", p.Off, hx(p.B)))
+		}
+		return ls
 	case "verify":
 		return []string{"verify " + o.V.String()}
 	case "signedby":
